@@ -12,6 +12,10 @@ R3  the State pushed for a state uses the partition / successor table / default 
     (after cleanup); make_successor stores each transition's target under the class of the transition's own set.
 R4  bookkeeping: initial state 0 = the id handed out by new's first get_state_id on an empty builder; get_state_id returns
     the mapped id or allocates `size` and increments it; mark_final sets the flag of that state; num_final_states counts it.
+R5  the specification survives build: the property quantifies over call SEQUENCES, so build(); add_transition(..); build()
+    must judge the transitions and defaults the caller gave, not what an earlier build's cleanup left.  Every call of a
+    specification-mutating function (effect summary of R1) made by build / build_unchecked must act on a local copy:
+    the receiver term may not be a projection of the builder (a0.states[..]).
 """
 from .. import terms as T
 from .. import interp as X
@@ -71,6 +75,7 @@ def run(ctx):
     guarded(ctx, 'C13.R2', 'C13.R2/cleanup', r2_cleanup)
     guarded(ctx, 'C13.R3', 'C13.R3/state', r3_state)
     guarded(ctx, 'C13.R4', 'C13.R4/bookkeeping', r4_bookkeeping)
+    guarded(ctx, 'C13.R5', 'C13.R5/spec-survives', r5_spec_survives)
 
 
 def analyse_build(ctx, cfg, fname, mutators):
@@ -407,3 +412,33 @@ def maj_rule(ctx, cfg):
         (ctx.ok if ok else ctx.violation)('C13.R2', 'C13.R2/maj_candidate/yields-an-existing-target', path, fn.site(), {'returned': T.show(o.value), 'loop_invariants': ip.loop_info}, cfg)
     ctx.obligation(n >= 1)
     (ctx.ok if n >= 1 else ctx.violation)('C13.R2', 'C13.R2/maj_candidate/returns', path, fn.site(), None, cfg)
+
+
+def root_of(t):
+    while isinstance(t, tuple) and t and t[0] in ('fld', 'elem', 'vfld', 'deref', 'upd', 'post'):
+        t = t[1] if t[0] != 'post' else t[3]
+    return t
+
+
+def r5_spec_survives(ctx):
+    for cfg in ('dev', 'rel'):
+        cr = ctx.crate(cfg)
+        muts = spec_mutators(cr)
+        for fname in ('build', 'build_unchecked'):
+            ip, fn, outs, events = analyse_build(ctx, cfg, fname, muts)
+            ok = bool(events)
+            ctx.obligation(ok)
+            (ctx.ok if ok else ctx.violation)('C13.R5', 'C13.R5/%s/mutator-sites-found' % fname, fn.path, fn.site(), {'events': len(events)}, cfg)
+            seen = set()
+            for name, st, selft in events:
+                r = root_of(selft)
+                inplace = r == A(0) or (r[0] == 'var' and ('iter-target' in r[1] or r[1].startswith('a0')))
+                local = r[0] == 'call' and r[1].endswith('::clone') or r[0] == 'mk'
+                okc = local and not inplace
+                key = 'C13.R5/%s/%s-acts-on-a-copy-of-the-specification' % (fname, name.rsplit('::', 1)[1])
+                if (key, okc) in seen:
+                    continue
+                seen.add((key, okc))
+                ctx.obligation(okc)
+                (ctx.ok if okc else ctx.violation)('C13.R5', key, fn.path, fn.site(), {'receiver': T.show(selft)[:200], 'root': T.show(r)[:120],
+                    'why': 'cleanup invents a default and drops transitions; done in place it makes a later add_transition + build validate a specification the caller never gave'}, cfg)
